@@ -5,7 +5,41 @@ import (
 	"go/token"
 	"go/types"
 	"strings"
+
+	"golang.org/x/tools/go/ssa"
+	"golang.org/x/tools/go/types/typeutil"
 )
+
+// nilReceiverSafe: every use of the method's receiver other than a comparison is control-dependent
+// on the receiver being non-nil.
+func nilReceiverSafe(fn *ssa.Function) bool {
+	if fn.Blocks == nil || fn.Signature.Recv() == nil || len(fn.Params) == 0 {
+		return false
+	}
+	recv := fn.Params[0]
+	refs := recv.Referrers()
+	if refs == nil {
+		return true
+	}
+	for _, r := range *refs {
+		if bo, ok := r.(*ssa.BinOp); ok && (bo.Op == token.EQL || bo.Op == token.NEQ) {
+			continue
+		}
+		if _, ok := r.(*ssa.DebugRef); ok {
+			continue
+		}
+		safe := false
+		for _, cd := range controllingIfs(r.Block()) {
+			if subj, nilOnTrue, ok := nilTest(cd.cond); ok && subj == ssa.Value(recv) && cd.val != nilOnTrue {
+				safe = true
+			}
+		}
+		if !safe {
+			return false
+		}
+	}
+	return true
+}
 
 // MSGDESCNIL: FieldDescriptor.Message() / TypeDescriptor.Message() is nil for every field that is
 // not a message (or map). In the j2p visitor the decision "this JSON object belongs to field f" is
@@ -15,16 +49,22 @@ import (
 func init() {
 	register(&Rule{
 		Name:     "MSGDESCNIL",
-		Doc:      "in conv/j2p every `d.Message().M(…)` is guarded: the statement is inside an `if`/`case` that establishes that d is a message or map descriptor (a condition mentioning d together with MESSAGE / IsMap / Message() != nil), or a preceding statement of the same list returns when `d.Message() == nil` — an object-valued JSON member for a scalar field must end in a mismatch error, not a nil dereference",
+		Doc:      "in conv/j2p and proto/generic every `d.Message().M(…)` is guarded: M itself answers nil on a nil receiver (every use of the receiver is under `m != nil`), or the statement is inside an `if`/`case` that establishes that d is a message or map descriptor (a condition mentioning d together with MESSAGE / IsMap / Message() != nil), or a preceding statement of the same list returns when `d.Message() == nil` — an object-valued JSON member for a scalar field must end in a mismatch error, not a nil dereference",
 		Configs:  "NP",
-		Floor:    map[string]int{"N": 2, "P": 2},
+		Floor:    map[string]int{"N": 13, "P": 13},
 		Controls: 1,
 		Run:      runMsgDescNil,
 	})
 }
 
 func runMsgDescNil(rc *RuleCtx) {
-	p := rc.W.Pkg("conv/j2p")
+	for _, rel := range []string{"conv/j2p", "proto/generic"} {
+		runMsgDescNilIn(rc, rel)
+	}
+}
+
+func runMsgDescNilIn(rc *RuleCtx, rel string) {
+	p := rc.W.Pkg(rel)
 	info := p.TypesInfo
 	for _, f := range p.Syntax {
 		for _, d := range f.Decls {
@@ -32,7 +72,7 @@ func runMsgDescNil(rc *RuleCtx) {
 			if !ok || fd.Body == nil {
 				continue
 			}
-			name := declName("conv/j2p", fd)
+			name := declName(rel, fd)
 			var stack []ast.Node
 			ast.Inspect(fd.Body, func(n ast.Node) bool {
 				if n == nil {
@@ -94,8 +134,17 @@ func runMsgDescNil(rc *RuleCtx) {
 						}
 					}
 				}
+				detail := "the descriptor is known to be a message/map here"
+				if !guarded {
+					if f, ok := typeutil.Callee(info, outer).(*types.Func); ok {
+						if sf := rc.W.Prog.FuncValue(f); sf != nil && nilReceiverSafe(sf) {
+							guarded = true
+							detail = "the lookup answers nil on a nil descriptor (every use of its receiver is under `m != nil`)"
+						}
+					}
+				}
 				rc.add(nil, name, dtxt+".Message()."+osel.Sel.Name, outer.Pos(), map[bool]string{true: "discharged", false: "violated"}[guarded],
-					map[bool]string{true: "the descriptor is known to be a message/map here", false: "`" + dtxt + ".Message()` is nil for a scalar field; which field an object-valued JSON member belongs to is decided by the document, so this call panics on a document that does not match the schema"}[guarded], false)
+					map[bool]string{true: detail, false: "`" + dtxt + ".Message()` is nil for a scalar field; which field an object-valued JSON member belongs to is decided by the document, so this call panics on a document that does not match the schema"}[guarded], false)
 				return true
 			})
 		}
